@@ -241,6 +241,16 @@ theorem aad_agree (cfg : WCfg) (wops : List WOp)
   rw [writer_aad_is_slot_aad cfg wops pfx fuOf ew hw, reader_ordinals_agree c rops er hr, hslot]
   rfl
 
+/-- non-vacuity of `aad_agree` / `roundtrip_reused_writer`: the second file of a reused writer has a
+    page in row group 0 that a reader of that chunk opens after a seek, and the identifier
+    generations really differ between the two files -/
+example :
+    let cfg : WCfg := { ncols := 1, dict := fun _ => false, bloom := fun _ => false, plainFooter := false }
+    let wops : List WOp := [.page 0, .flush [], .reset, .page 0, .page 0]
+    let c : Chunk := { rg := 0, col := 0, hasDict := false, npages := 2 }
+    (∃ ew ∈ wclose cfg (wrun cfg wops), ∃ er ∈ (rrun c [.seekIndexed 1, .step]).log, ew.slot = er.slot ∧ ew.fu = some 1) ∧
+    (wrun cfg wops).gen = 1 ∧ (wrun cfg [.page 0, .flush []]).gen = 0 := by decide
+
 /-- The modules read outside `FilePages` (footer, column metadata, column/offset index, bloom
     filter) are opened with `(rowGroup.Ordinal, column index)` taken from the footer — that is
     `Module.aad` itself (call sites listed at `Module.ords`); the writer side agrees. -/
